@@ -658,6 +658,22 @@ Section WithL.
     destruct (Z.eqb (a v1) 0), (Z.eqb (a v2) 0); reflexivity.
   Qed.
 
+  (* the cxx2coq translation of the real DataColumnList::Contains is the hand model's `contains`: same answer, and with
+     a non-null resOffset it writes exactly the offset; with resOffset == nullptr it writes nothing *)
+  Lemma contains_refines st p code :
+    contains_gen L st p code =
+    match contains L st code with
+    | Some o => (true, if Z.eqb p 0 then 0 else o)
+    | None => (false, 0)
+    end.
+  Proof.
+    unfold contains_gen, Gen_List.Contains, contains.
+    destruct (GetVertices L code (codeParam st)) as [v1 v2]. cbn [fst snd].
+    destruct (Z.eqb (addends st v1) 0), (Z.eqb (addends st v2) 0); cbn [orb]; try reflexivity.
+    destruct (mem code (codeSet st)); cbn [negb]; [|reflexivity].
+    destruct (Z.eqb p 0); reflexivity.
+  Qed.
+
   (* every index the generated pvGetOffset (and Contains, pvFillAddends, AddEdges) uses into mAddends / mEdges is
      inside the arrays, for EVERY code parameter the search loop can reach (<= the source's maxCodeParam) and every code *)
   Theorem vertex_indices_in_bounds code cp : 0 <= cp <= maxCodeParam ->
